@@ -31,6 +31,11 @@ CLAIMS = {
             "disposer thread), Destruct()/destructors drain with the maximal epoch before delete, general_instant frees once after synchronize, "
             "retire_ptr/batch_retire hand over each element once with the current epoch tag. Buffer delivery itself is C07.", PATHS,
             "DESIGN.md §4 C05"),
+    "C07": ("other", "Path rules with affine value comparison over VyukovMPMCCycleQueue (value and intrusive variants): slot used only after the "
+            "claiming CAS under the readiness test, payload access before the releasing sequence store, writer/reader sequence values agree "
+            "(pos+1 / pos+mask+1 with mask = capacity-1), same cell index everywhere, full/empty returned only under the stated tests with a "
+            "fresh load, acquire/release floor on the sequence word. Not decided: linearizability across wrap-around.",
+            "static analysis: path enumeration with value numbering + affine normal forms (writer/reader agreement)", "DESIGN.md §4 C07"),
     "C10": ("other", "Decision table over every path of FCDeque::fc_process: each collision row (op-codes recovered from the path, ends derived "
             "from fc_apply) is push/pop in the right argument order and either same-end or guarded by m_Deque.empty(); collided record is "
             "forgotten; collide() completes both records once and hands the value over; the op-code each public method publishes is executed "
